@@ -355,7 +355,14 @@ class ValueSizeConstraint(ValueRangeConstraint):
     types).
     """
     def _testValue(self, value, idx):
-        valueSize = len(value)
+        try:
+            valueSize = len(value)
+
+        except TypeError:
+            # what has no size (no value at all: an absent component)
+            # is not of a permitted size
+            raise error.ValueConstraintError(value)
+
         if valueSize < self.start or valueSize > self.stop:
             raise error.ValueConstraintError(value)
 
@@ -440,7 +447,15 @@ class PermittedAlphabetConstraint(SingleValueConstraint):
         self._set = set(values)
 
     def _testValue(self, value, idx):
-        if not self._set.issuperset(value):
+        try:
+            permitted = self._set.issuperset(value)
+
+        except TypeError:
+            # what is not made of characters (no value at all: an
+            # absent component) is not a permitted string
+            permitted = False
+
+        if not permitted:
             raise error.ValueConstraintError(value)
 
 
